@@ -328,8 +328,10 @@ static int _GD_UpdateAffixes(DIRFILE *D, int index, char *nsin, size_t nsl,
 
       fullns = _GD_Malloc(D, len + 1);
       if (fullns) {
-        /* We copy from F not P because it already has the intervening '.' */
-        memcpy(fullns, F->ns, P->nsl + 1);
+        /* Copy from P and add the intervening '.': F->ns is NULL when the parent
+         * got its namespace after F was included */
+        memcpy(fullns, P->ns, P->nsl);
+        fullns[P->nsl] = '.';
         ns = fullns + P->nsl + 1;
 
         /* We copy the trailing '.' and NUL here */
